@@ -38,7 +38,8 @@ def wait_for(pred, timeout=8.0):
     return False
 
 
-def scenario(ctx, rng, point):
+def scenario(ctx, rng, point, alias=False):
+    """alias: the second run reaches the same backup root under another spelling (a symbolic link to it, in a second configuration file)"""
     with slevel.Sandbox("c16") as sb:
         rotate = point == "removal"
         H = runs.History(ctx, sb, rng, "C16", 1 if rotate else 3, 1 if rotate else 3)
@@ -75,7 +76,18 @@ def scenario(ctx, rng, point):
         # the second run, traced
         tf2 = sb.path("t2.txt")
         t0 = time.time()
-        rc2, out2 = sb.vsb(["backup", "w"], now=H.now + 1, prefix=trace.strace_cmd(tf2, trace.STORAGE_CALLS))
+        cfg_first = sb.cfg
+        if alias:
+            link = sb.path("st-alias")
+            os.symlink(H.w.st, link)
+            cfg2 = sb.path("cfg-alias.yaml")
+            with open(cfg2, "w") as f:
+                f.write(open(cfg_first).read().replace("path: %s\n" % H.w.st, "path: %s\n" % link))
+            sb.cfg = cfg2
+        try:
+            rc2, out2 = sb.vsb(["backup", "w"], now=H.now + 1, prefix=trace.strace_cmd(tf2, trace.STORAGE_CALLS))
+        finally:
+            sb.cfg = cfg_first
         dt = time.time() - t0
         after_second = storage_listing(H.w.st)
         first_running = p1.poll() is None
@@ -84,13 +96,21 @@ def scenario(ctx, rng, point):
         ev2 = trace.parse(tf2)
         main2 = ev2[0]["pid"] if ev2 else None
         ops2 = trace.project([e for e in ev2 if e["pid"] == main2], H.w.st)
+        if alias:
+            ops2 = ops2 + trace.project([e for e in ev2 if e["pid"] == main2], sb.path("st-alias"))
         mutating2 = [o for o in ops2 if o["op"] in ("mkdir", "create", "write", "rename", "remove", "open-write") and o.get("rel") is not None]
         ctx.evaluations += 1
-        ctx.count("pause." + point)
-        ctx.nontrivial.add((point, rc1, rc2))
-        desc = {"first_paused": point, "first_still_running_when_second_ended": first_running, "second_exit": rc2, "second_seconds": round(dt, 2),
+        ctx.count("pause." + point + (".aliased-root" if alias else ""))
+        ctx.nontrivial.add((point, alias, rc1, rc2))
+        desc = {"first_paused": point, "second_run_through_a_symlink_to_the_root": alias, "first_still_running_when_second_ended": first_running, "second_exit": rc2, "second_seconds": round(dt, 2),
                 "second_errors": slevel.errors_of(out2)[:2], "first_exit": rc1}
         ctx.sample(desc)
+        if ok and (rc2 == 0 or mutating2) and any("lock" in e.lower() for e in slevel.errors_of(out2)) is False:
+            # the first run had reached the pause point (it held the lock) when the second one was started, and the second one went ahead
+            ctx.violation("exclusion", "a second `vsb backup`%s started while the first was paused (%s) was not refused: exit %d, storage calls %s"
+                          % (" reaching the same root through a symbolic link" if alias else "", point, rc2, [(o["op"], o["rel"]) for o in mutating2[:3]]),
+                          {"case": desc, "second_output": out2[-600:]})
+            return
         if not ok or not first_running:
             ctx.violation("schedule", "correspondence lock-schedule no longer checks: the first run could not be paused at '%s' (ready=%s, running=%s)" % (point, ok, first_running),
                           {"case": desc, "first_output": out1[-600:]}, failing_input=False)
@@ -288,13 +308,17 @@ def run(ctx):
     reps = 4 if thorough else 1
     ctx.rule = ("lock bracket: %d traced run(s) with rotation and removal of an old group; exclusion: a second real run started while the first is "
                 "paused at 4 points (after taking the lock, during a before-hook while items are about to be read, during publication, during old-group "
-                "removal) x %d; two `vsb upload` runs with the same configuration file, the second started while the first waits for a delayed reply "
+                "removal) x %d, and with the second run reaching the same root through a symbolic link in another configuration file; two `vsb upload` runs with the same configuration file, the second started while the first waits for a delayed reply "
                 "of the provider emulator (during listing, during transfer). Non-trivial: "
                 "every scenario; distinct by (pause point, exit codes)." % (reps, reps))
     for _ in range(reps):
         bracket(ctx, rng)
         for point in ("after-lock", "reading", "publication", "removal"):
             scenario(ctx, rng, point)
+            if ctx.violations:
+                return
+        for point in (("reading", "publication") if thorough else ("reading",)):
+            scenario(ctx, rng, point, alias=True)
             if ctx.violations:
                 return
         for errno_name in (("ENOLCK", "ENOSYS", "EOPNOTSUPP", "EINTR") if thorough else ("ENOLCK",)):
